@@ -58,11 +58,27 @@ func (p *Program) TypeExpr(id int) string {
 	case KExtPtr:
 		return fmt.Sprintf("*hb.X%d", id)
 	case KVis:
-		return fmt.Sprintf("hc.Y%d", id)
+		return fmt.Sprintf("%s.Y%d", p.hcName(), id)
 	case KVisPtr:
-		return fmt.Sprintf("*hc.Y%d", id)
+		return fmt.Sprintf("*%s.Y%d", p.hcName(), id)
 	}
 	panic("kind")
+}
+
+// hcName / haName: the names under which the program's file imports its
+// helper packages. Inside the helper package ha they keep their own names.
+func (p *Program) hcName() string {
+	if p.AliasImports && !p.inHelper {
+		return "vis"
+	}
+	return "hc"
+}
+
+func (p *Program) haName() string {
+	if p.AliasImports {
+		return "fns"
+	}
+	return "ha"
 }
 
 // mkExpr / unExpr wrap a token into / unwrap it from type id. In the program's
@@ -156,7 +172,7 @@ func (p *Program) typeDecls(b *strings.Builder) {
 		case KArr:
 			fmt.Fprintf(b, "func mkT%d(v uint64) [2]uint64 { return [2]uint64{v, v} }\nfunc unT%d(x [2]uint64) uint64 { return x[0] }\n\n", id, id)
 		case KVis, KVisPtr:
-			fmt.Fprintf(b, "func mkT%d(v uint64) %s { return hc.MkY%d(v) }\nfunc unT%d(x %s) uint64 { return hc.UnY%d(x) }\n\n", id, te, id, id, te, id)
+			fmt.Fprintf(b, "func mkT%d(v uint64) %s { return %s.MkY%d(v) }\nfunc unT%d(x %s) uint64 { return %s.UnY%d(x) }\n\n", id, te, p.hcName(), id, id, te, p.hcName(), id)
 		case KExt, KExtPtr:
 			// declared in hb, which this file must not import: no helpers here
 		}
@@ -387,7 +403,9 @@ func (pr *printer) fnParts(f *Fn, c *Coll) (params, results, body string) {
 // fnExpr declares what the spelling needs and returns the expression used in
 // the directive.
 func (pr *printer) fnExpr(f *Fn, c *Coll) string {
+	pr.p.inHelper = f.Spell == SpImport // signatures inside ha name hc by its own name
 	params, results, body := pr.fnParts(f, c)
+	pr.p.inHelper = false
 	switch f.Spell {
 	case SpLit:
 		return fmt.Sprintf("func(%s)%s {\n%s}", params, results, indent(body))
@@ -402,7 +420,7 @@ func (pr *printer) fnExpr(f *Fn, c *Coll) string {
 		return fmt.Sprintf("genF%d[int]", f.ID)
 	case SpImport:
 		fmt.Fprintf(&pr.helper, "func F%d(%s)%s {\n%s}\n\n", f.ID, params, results, body)
-		return fmt.Sprintf("ha.F%d", f.ID)
+		return fmt.Sprintf("%s.F%d", pr.p.haName(), f.ID)
 	default: // SpTop
 		fmt.Fprintf(&pr.decls, "func topF%d(%s)%s {\n%s}\n\n", f.ID, params, results, body)
 		return fmt.Sprintf("topF%d", f.ID)
@@ -632,10 +650,16 @@ func (pr *printer) source() string {
 	fmt.Fprintf(&b, "package %s\n\n", p.Name)
 	b.WriteString("import (\n\t\"context\"\n\n\t\"go.uber.org/cff\"\n")
 	if pr.helper.Len() > 0 {
-		fmt.Fprintf(&b, "\t\"%s/ha\"\n", p.Base)
+		al := func(n string) string {
+			if p.AliasImports {
+				return n + " "
+			}
+			return ""
+		}
+		fmt.Fprintf(&b, "\t%s\"%s/ha\"\n", al("fns"), p.Base)
 		for id := 1; id < len(p.Types); id++ {
 			if p.Types[id] == KVis || p.Types[id] == KVisPtr {
-				fmt.Fprintf(&b, "\t\"%s/hc\"\n", p.Base)
+				fmt.Fprintf(&b, "\t%s\"%s/hc\"\n", al("vis"), p.Base)
 				break
 			}
 		}
